@@ -401,6 +401,33 @@ def enum_info(text, attrs):
     return dict(width=width, values=vals)
 
 
+def enum_variants(text):
+    """[(variant, discriminant)] of a fieldless enum (explicit `= expr` or positional); None if the
+    enum has payload variants or a discriminant that is not a constant integer expression"""
+    mask = code_mask(text)
+    j = mask.find('{')
+    if j < 0:
+        return None
+    k = match_close(mask, j)
+    out = []
+    nxt = 0
+    for v in split_top(text[j + 1:k], ',', False):
+        v = re.sub(r'#\[[^\]]*\]', '', v).strip()
+        if not v:
+            continue
+        m = re.match(r'([A-Za-z_][A-Za-z0-9_]*)\s*(?:=\s*(.+))?$', v, re.S)
+        if not m:
+            return None
+        if m.group(2) is not None:
+            try:
+                nxt = int(eval(m.group(2).strip().replace('_', ''), {'__builtins__': {}}))
+            except Exception:
+                return None
+        out.append([m.group(1), nxt])
+        nxt += 1
+    return out
+
+
 def auto_size(it, splicer):
     fields = packed_fields(it.text[it.decl_off - it.start:])
     if not fields:
@@ -894,6 +921,7 @@ class Splicer:
         self._helpers = {}
         self.packed = []
         self.enums = []
+        self.all_enums = []   # every fieldless enum: [(variant, discriminant)] (explicit or positional)
 
     def load_macros(self):
         for mod in self.module_names():
@@ -961,7 +989,7 @@ class Splicer:
             f.write('\n'.join(out.lines) + '\n')
         with open(os.path.join(self.outdir, 'map.json'), 'w') as f:
             json.dump(dict(regions=out.regions, rewrites=out.counts, fns=self.fn_index,
-                           uncovered=self.uncovered, packed=self.packed, enums=self.enums), f, indent=0)
+                           uncovered=self.uncovered, packed=self.packed, enums=self.enums, all_enums=self.all_enums), f, indent=0)
 
     # ---------------------------------------------------------------------------------
     def emit_module(self, mod):
@@ -998,6 +1026,10 @@ class Splicer:
         # discriminants of an enum that follows a spec fn in the same module); item order has
         # no run-time content
         enums = [it for it in items if it.kind == 'enum' and not is_cfg_test(it.attrs)]
+        for it in enums:
+            ev = enum_variants(it.text[it.decl_off - it.start:] if getattr(it, 'decl_off', None) is not None else it.text)
+            if ev is not None:
+                self.all_enums.append(dict(module=mod, name=it.name, variants=ev))
         rest = [it for it in items if not (it.kind == 'enum' and not is_cfg_test(it.attrs))]
         uses = [it for it in rest if it.kind == 'use']
         rest = [it for it in rest if it.kind != 'use']
